@@ -242,8 +242,100 @@ let run_k3_case (prog : program) (line : string) =
      | _ -> failwith "k3 header")
   | _ -> failwith "k3 line"
 
+
+(* ---------- K2: analysis ---------- *)
+let rec regex_of (x : sexp) : regex =
+  match x with
+  | L [A "tok"; i; t] -> RTok (nat_of i, nat_of t)
+  | L [A "rule"; i; r] -> RRule (nat_of i, nat_of r)
+  | L [A "cat"; i; L ops] -> RCat (nat_of i, List.map regex_of ops)
+  | L [A "alt"; i; L ops] -> RAlt (nat_of i, List.map regex_of ops)
+  | L [A "choice"; i; L ops] -> RChoice (nat_of i, List.map regex_of ops)
+  | L [A "star"; i; o] -> RStar (nat_of i, regex_of o)
+  | L [A "plus"; i; o] -> RPlus (nat_of i, regex_of o)
+  | L [A "opt"; i; o] -> ROpt (nat_of i, regex_of o)
+  | L [A "paren"; i; A "none"] -> RParen (nat_of i, None)
+  | L [A "paren"; i; o] -> RParen (nat_of i, Some (regex_of o))
+  | L [A "leaf"; i; A "predt"] -> RLeaf (nat_of i, LPred None)
+  | L [A "leaf"; i; L [A "pred"; n]] -> RLeaf (nat_of i, LPred (Some (nat_of n)))
+  | L [A "leaf"; i; A k] ->
+    RLeaf (nat_of i, (match k with
+        | "action" -> LAction | "assert" -> LAssert | "rename" -> LRename | "elision" -> LElision
+        | "marker" -> LMarker | "creation" -> LCreation | "commit" -> LCommit | "return" -> LReturn
+        | _ -> failwith "leaf kind"))
+  | _ -> failwith "regex"
+
+let grammar_of (x : sexp) : grammar * int =
+  match x with
+  | L [A "grammar"; L rules; start; L parts; eof; right; skipped; L tokdecl; tokdecls; ntoks] ->
+    let rule_of = function
+      | L [A "r"; d; A "none"; e] -> { r_decl = nat_of d; r_body = None; r_elided = bool_of e }
+      | L [A "r"; d; b; e] -> { r_decl = nat_of d; r_body = Some (regex_of b); r_elided = bool_of e }
+      | _ -> failwith "rule" in
+    ({ g_rules = List.map rule_of rules; g_start = nat_of start;
+       g_parts = List.map (function L [r; t] -> (nat_of r, nat_of t) | _ -> failwith "part") parts;
+       g_eof = nat_of eof; g_right = list_of nat_of right; g_skipped = list_of nat_of skipped;
+       g_tok_decl = List.map (function L [t; d] -> (nat_of t, nat_of d) | _ -> failwith "tokdecl") tokdecl;
+       g_tok_decls = list_of nat_of tokdecls }, int_of ntoks)
+  | _ -> failwith "grammar"
+
+let pr_set (s : sym list) =
+  pr "[";
+  List.iteri (fun i x -> if i > 0 then pr ","; match x with Eps -> pr "-1" | T t -> pr "%d" (int_of_nat t)) s;
+  pr "]"
+
+let pr_smap name (m : (nat * sym list) list) =
+  pr "\"%s\":{" name;
+  List.iteri (fun i (k, v) -> if i > 0 then pr ","; pr "\"%d\":" (int_of_nat k); pr_set v) m;
+  pr "}"
+
+let code_name = function
+  | E011 -> "E011" | E012 -> "E012" | E013 -> "E013" | E014 -> "E014" | E015 -> "E015" | W007 -> "W007"
+  | E028 -> "E028" | E029 -> "E029" | W006 -> "W006" | PANIC -> "PANIC"
+
+let run_k2_line (line : string) =
+  let (g, ntoks) = grammar_of (parse_sexp line) in
+  match analyse g (nat_of_int ntoks) (fun l -> l) with
+  | None -> pr "{\"r\":\"fuel\"}\n"
+  | Some s ->
+    pr "{\"r\":\"ok\",";
+    pr_smap "first" s.s_first; pr ","; pr_smap "follow" s.s_follow; pr ",";
+    pr_smap "predict" s.s_predict; pr ","; pr_smap "local_follow" s.s_local_follow; pr ",";
+    pr_smap "recovery" s.s_recovery;
+    pr ",\"diags\":[";
+    List.iteri (fun i (c, n) -> if i > 0 then pr ","; pr "[\"%s\",%d]" (code_name c) (int_of_nat n)) s.s_diags;
+    pr "],\"used\":"; pr_natlist s.s_used;
+    pr ",\"in_choice\":"; pr_natlist s.s_in_choice;
+    pr ",\"mixed\":"; pr_natlist s.s_mixed;
+    pr ",\"bp\":[";
+    List.iteri (fun i (k, (a, b)) -> if i > 0 then pr ","; pr "[%d,%d,%d]" (int_of_nat k) (int_of_nat a) (int_of_nat b)) s.s_bp;
+    pr "],\"recursive\":[";
+    List.iteri (fun i (r, bs) ->
+        if i > 0 then pr ",";
+        pr "[%d,[" (int_of_nat r);
+        List.iteri (fun j b -> if j > 0 then pr ",";
+                     match b with
+                     | RecLeft (x, l) -> pr "[\"left\",%d,%d,-1]" (int_of_nat (rid_of x)) (int_of_nat l)
+                     | RecRight (x, r) -> pr "[\"right\",%d,-1,%d]" (int_of_nat (rid_of x)) (int_of_nat r)
+                     | RecLeftRight (x, l, r) -> pr "[\"leftright\",%d,%d,%d]" (int_of_nat (rid_of x)) (int_of_nat l) (int_of_nat r)) bs;
+        pr "]]") s.s_recursive;
+    pr "],\"dom\":{";
+    List.iteri (fun i (k, v) -> if i > 0 then pr ","; pr "\"%d\":" (int_of_nat k); pr_natlist v) s.s_dom;
+    pr "}}\n"
+
 let () =
   match Array.to_list Sys.argv with
+  | [_; "k2"] ->
+    (try while true do
+         let line = input_line stdin in
+         (try run_k2_line line with Stack_overflow -> pr "{\"r\":\"stackoverflow\"}\n" | Failure m -> pr "{\"r\":\"bad\",\"msg\":\"%s\"}\n" m);
+         flush_out ()
+       done with End_of_file -> ())
+  | _ -> ()
+
+let () =
+  match Array.to_list Sys.argv with
+  | [_; "k2"] -> ()
   | [_; "k1"] ->
     (try while true do
          let line = input_line stdin in
